@@ -1090,4 +1090,230 @@ theorem derOIDDec2_eq_dec (der oid : List UInt8) (hlen : der.length < W) (hstr :
     | oob => rw [hl2] at h; cases h
 
 
+theorem oidDecLoop_mono (der : List UInt8) (off l : Nat) :
+    ∀ n pos val d1 out d1f outf, n = l - pos → oidDecLoop der off l pos val d1 out = .ok (d1f, outf) →
+    ∃ suf, outf = out ++ suf := by
+  intro n
+  induction n with
+  | zero =>
+    intro pos val d1 out d1f outf hn h
+    rw [oidDecLoop, dif_neg (by omega)] at h
+    cases h; exact ⟨[], by simp⟩
+  | succ n ih =>
+    intro pos val d1 out d1f outf hn h
+    rw [oidDecLoop, dif_pos (by omega)] at h
+    by_cases h1 : val / 33554432 ≠ 0
+    · rw [if_pos h1] at h; cases h
+    · rw [if_neg h1] at h
+      cases hr : rd der (off + pos) with
+      | ok b =>
+        rw [hr] at h; simp only [] at h
+        by_cases h2 : val = 0 ∧ b = 128
+        · rw [if_pos h2] at h; cases h
+        · rw [if_neg h2] at h
+          by_cases h3 : b / 128 = 0
+          · rw [if_pos h3] at h
+            by_cases h4 : d1 = 3
+            · rw [if_pos h4] at h
+              obtain ⟨suf, hs⟩ := ih _ _ _ _ _ _ (by omega) h
+              exact ⟨_, by rw [hs]; simp only [List.append_assoc]; rfl⟩
+            · rw [if_neg h4] at h
+              obtain ⟨suf, hs⟩ := ih _ _ _ _ _ _ (by omega) h
+              exact ⟨_, by rw [hs]; simp only [List.append_assoc]; rfl⟩
+          · rw [if_neg h3] at h
+            exact ih _ _ _ _ _ _ (by omega) h
+      | err => rw [hr] at h; cases h
+      | oob => rw [hr] at h; cases h
+
+theorem sidCmpLoop_of_eq (oid : List UInt8) (o : Nat) : ∀ (n t : Nat), o + n ≤ oid.length →
+    (oid.drop o).take n = decChars n t → sidCmpLoop oid o t n = .ok () := by
+  intro n
+  induction n with
+  | zero => intro t _ _; rfl
+  | succ n ih =>
+    intro t hl h
+    have hi : o + n < oid.length := by omega
+    rw [decChars, List.take_add_one, List.getElem?_drop, List.getElem?_eq_getElem hi] at h
+    simp only [Option.toList_some] at h
+    have hlen : ((oid.drop o).take n).length = (decChars n (t / 10)).length := by
+      rw [decChars_length]; simp [List.length_take]; omega
+    obtain ⟨h1, h2⟩ := List.append_inj h hlen
+    unfold sidCmpLoop
+    rw [rdS_lt hi]; simp only []
+    have hv : oid[o + n].toNat = 48 + t % 10 := by
+      have := List.cons.inj h2
+      rw [this.1, toNat_oct]; omega
+    rw [if_neg (by omega)]
+    exact ih (t / 10) (by omega) h1
+
+theorem derSIDDec2_of_eq (val : Nat) (oid : List UInt8) (o : Nat) (hl : o + decLen val ≤ oid.length)
+    (h : (oid.drop o).take (decLen val) = derSIDDec val) : derSIDDec2 val oid o = .ok (decLen val) := by
+  unfold derSIDDec2
+  simp only []
+  rw [if_neg (by omega), sidCmpLoop_of_eq oid o _ val hl h]
+
+/-- if `oid` continues at position o with `chunk`, the slice there is the chunk -/
+theorem slice_of_prefix (oid : List UInt8) (o : Nat) (chunk suf : List UInt8) (h : oid = oid.take o ++ chunk ++ suf)
+    (ho : o ≤ oid.length) : (oid.drop o).take chunk.length = chunk ∧ o + chunk.length ≤ oid.length := by
+  have hd : oid.drop o = chunk ++ suf := by
+    conv => lhs; rw [h]
+    rw [List.append_assoc, List.drop_left' (by simp; omega)]
+  constructor
+  · rw [hd, List.take_left' rfl]
+  · have := congrArg List.length hd
+    simp at this; omega
+
+
+theorem decLen_pos (v : Nat) : 1 ≤ decLen v := by
+  by_cases h : v < 10
+  · rw [decLen_small h]; omega
+  · rw [decLen_big h]; omega
+
+/-- matching one printed chunk ".v" (or "d.v" for the first arc) at position o of oid -/
+theorem match_dot_num (oid : List UInt8) (o v : Nat) (suf : List UInt8) (ho : o ≤ oid.length)
+    (h : oid = oid.take o ++ (46 :: derSIDDec v) ++ suf) :
+    rdS oid o = .ok 46 ∧ derSIDDec2 v oid (o + 1) = .ok (decLen v) ∧ o + 1 + decLen v ≤ oid.length ∧
+      oid.take (o + 1 + decLen v) = oid.take o ++ (46 :: derSIDDec v) := by
+  obtain ⟨hsl, hlen⟩ := slice_of_prefix oid o (46 :: derSIDDec v) suf h ho
+  simp only [List.length_cons, derSIDDec_length] at hsl hlen
+  have hi : o < oid.length := by omega
+  have hd : oid.drop o = 46 :: (oid.drop (o + 1)) ∧ (oid.drop (o + 1)).take (decLen v) = derSIDDec v := by
+    rw [List.drop_eq_getElem_cons hi, List.take_succ_cons] at hsl
+    injection hsl with h1 h2
+    exact ⟨by rw [List.drop_eq_getElem_cons hi, h1], h2⟩
+  have h46 : oid[o] = 46 := by
+    have := hd.1; rw [List.drop_eq_getElem_cons hi] at this; injection this
+  refine ⟨by rw [rdS_lt hi, h46]; rfl, derSIDDec2_of_eq v oid (o + 1) (by omega) hd.2, by omega, ?_⟩
+  rw [show o + 1 + decLen v = o + (decLen v + 1) by omega, List.take_add, hsl]
+
+set_option maxRecDepth 4000 in
+/-- converse of oidDec2Loop_follows: along the string derOIDDec writes, derOIDDec2 succeeds -/
+theorem oidDec2Loop_of_dec (der : List UInt8) (off l : Nat) (oid : List UInt8) :
+    ∀ n pos val d1 o d1f, n = l - pos → o ≤ oid.length → (d1 = 3 ∨ d1 = 0) →
+    oidDecLoop der off l pos val d1 (oid.take o) = .ok (d1f, oid) →
+    oidDec2Loop der off l pos val d1 oid o = .ok (d1f, oid.length) := by
+  intro n
+  induction n with
+  | zero =>
+    intro pos val d1 o d1f hn ho hd h
+    rw [oidDecLoop, dif_neg (by omega)] at h
+    injection h with h; injection h with h1 h2
+    rw [oidDec2Loop, dif_neg (by omega)]
+    have : o = oid.length := by
+      have := congrArg List.length h2
+      simp [List.length_take] at this; omega
+    rw [h1, this]
+  | succ n ih =>
+    intro pos val d1 o d1f hn ho hd h
+    rw [oidDecLoop, dif_pos (by omega)] at h
+    rw [oidDec2Loop, dif_pos (by omega)]
+    by_cases h1 : val / 33554432 ≠ 0
+    · rw [if_pos h1] at h; cases h
+    · rw [if_neg h1] at h ⊢
+      cases hr : rd der (off + pos) with
+      | ok b =>
+        rw [hr] at h; simp only [] at h ⊢
+        by_cases h2 : val = 0 ∧ b = 128
+        · rw [if_pos h2] at h; cases h
+        · rw [if_neg h2] at h ⊢
+          by_cases h3 : b / 128 = 0
+          · rw [if_pos h3] at h ⊢
+            generalize hX : (val * 128 + b % 128) % U32 = X at h ⊢
+            by_cases h4 : d1 = 3
+            · subst h4
+              simp only [if_true] at h ⊢
+              generalize hdd : (if X < 40 then 0 else if X < 80 then 1 else 2) = d at h ⊢
+              generalize hvd : (if X < 40 then X else if X < 80 then X - 40 else X - 80) = vd at h ⊢
+              obtain ⟨suf, hs⟩ := oidDecLoop_mono der off l _ _ _ _ _ _ _ rfl h
+              -- first the digit d, then ".vd"
+              have hd10 : d < 10 := by rw [← hdd]; split <;> (try split) <;> omega
+              have e1 : oid = oid.take o ++ derSIDDec d ++ (46 :: derSIDDec vd ++ suf) := by
+                conv => lhs; rw [hs]
+                simp only [List.append_assoc, List.cons_append, List.nil_append, List.singleton_append]
+              obtain ⟨hsl1, hlen1⟩ := slice_of_prefix oid o (derSIDDec d) _ e1 ho
+              rw [derSIDDec_length] at hsl1 hlen1
+              rw [derSIDDec2_of_eq d oid o hlen1 hsl1]; simp only []
+              have htk : oid.take (o + decLen d) = oid.take o ++ derSIDDec d := by rw [List.take_add, hsl1]
+              have e2 : oid = oid.take (o + decLen d) ++ (46 :: derSIDDec vd) ++ suf := by
+                rw [htk]; conv => lhs; rw [e1]
+                simp only [List.append_assoc, List.cons_append]
+              obtain ⟨m1, m2, m3, m4⟩ := match_dot_num oid (o + decLen d) vd suf hlen1 e2
+              rw [m1]; simp only []
+              rw [if_neg (by omega), m2]; simp only []
+              apply ih (pos + 1) 0 0 _ d1f (by omega) m3 (Or.inr rfl)
+              rw [m4, htk]
+              have : oid.take o ++ derSIDDec d ++ 46 :: derSIDDec vd = oid.take o ++ derSIDDec d ++ [46] ++ derSIDDec vd := by simp
+              rw [this]; exact h
+            · have hd0 : d1 = 0 := by omega
+              subst hd0
+              simp only [h4, if_false] at h ⊢
+              obtain ⟨suf, hs⟩ := oidDecLoop_mono der off l _ _ _ _ _ _ _ rfl h
+              have e2 : oid = oid.take o ++ (46 :: derSIDDec X) ++ suf := by
+                conv => lhs; rw [hs]
+                simp only [List.append_assoc, List.cons_append, List.nil_append, List.singleton_append]
+              obtain ⟨m1, m2, m3, m4⟩ := match_dot_num oid o X suf ho e2
+              rw [m1]; simp only []
+              rw [if_neg (by omega), m2]; simp only []
+              apply ih (pos + 1) 0 0 _ d1f (by omega) m3 (Or.inr rfl)
+              rw [m4]
+              have : oid.take o ++ 46 :: derSIDDec X = oid.take o ++ [46] ++ derSIDDec X := by simp
+              rw [this]; exact h
+          · rw [if_neg h3] at h ⊢
+            exact ih (pos + 1) _ d1 o d1f (by omega) ho hd h
+      | err => rw [hr] at h; cases h
+      | oob => rw [hr] at h; cases h
+
+/-- derOIDDec returning `oid` implies derOIDDec2 accepts (der, oid) -/
+theorem derOIDDec2_of_dec (der oid : List UInt8) (hlen : der.length < W) (c : Nat)
+    (h : derOIDDec der = .ok (oid, c)) : derOIDDec2 der oid = .ok c := by
+  unfold derOIDDec at h
+  unfold derOIDDec2
+  rcases derDec2_cases der 6 hlen with e | ⟨off, l, c', e, _, _, _, hc, hcl⟩
+  · rw [e] at h; cases h
+  · rw [e] at h ⊢; simp only [] at h ⊢
+    cases hl1 : oidDecLoop der off l 0 0 3 [] with
+    | ok r =>
+      obtain ⟨d1, out⟩ := r
+      rw [hl1] at h; simp only [] at h
+      by_cases hd : d1 = 3
+      · rw [if_pos hd] at h; cases h
+      · rw [if_neg hd] at h
+        cases hr : rd der (off + (l - 1)) with
+        | ok last =>
+          rw [hr] at h; simp only [] at h
+          by_cases hla : last / 128 ≠ 0
+          · rw [if_pos hla] at h; cases h
+          · rw [if_neg hla] at h
+            injection h with h; injection h with ho hc2
+            subst ho; subst hc2
+            have := oidDec2Loop_of_dec der off l out l 0 0 3 0 d1 (by omega) (by omega) (Or.inl rfl) (by simpa using hl1)
+            rw [this]; simp only []
+            rw [if_neg hd, if_neg hla]
+            have : rdS out out.length = .ok 0 := by unfold rdS; simp
+            rw [this]; simp
+        | err => rw [hr] at h; cases h
+        | oob => rw [hr] at h; cases h
+    | err => rw [hl1] at h; cases h
+    | oob => rw [hl1] at h; cases h
+
+/-- ROUND TRIP for the matcher: derOIDDec2 accepts the code of `oid`, followed by anything -/
+theorem derOIDDec2_roundtrip (oid e rest : List UInt8) (he : derOIDEnc oid = .ok e) (hlen : 13 + e.length + rest.length < W) :
+    derOIDDec2 (e ++ rest) oid = .ok e.length := by
+  have hv : oidIsValid oid = true := by
+    unfold derOIDEnc at he
+    by_cases hv : oidIsValid oid = true
+    · exact hv
+    · have hf : oidIsValid oid = false := by simpa using hv
+      rw [hf] at he; simp at he
+  obtain ⟨e', he', hd⟩ := derOID_roundtrip' oid hv rest (by
+    intro V hV
+    rw [he] at hV
+    have : V.length ≤ e.length := by
+      unfold derEnc at hV; rw [derTEnc_ok 6 (by decide)] at hV
+      injection hV with hV; rw [hV]; simp; omega
+    omega)
+  rw [he] at he'; cases he'
+  exact derOIDDec2_of_dec (e ++ rest) oid (by simp; omega) e.length hd
+
+
 end Bee2V.C08
